@@ -245,6 +245,47 @@ end Tree
 
 namespace Tree
 
+/-- same deme, except possibly for its list of children -/
+def SameBC (d d' : Deme) : Prop := ∃ cs, d' = { d with children := cs }
+
+theorem SameBC.refl (d : Deme) : SameBC d d := ⟨d.children, rfl⟩
+theorem SameBC.trans {a b c : Deme} (h1 : SameBC a b) (h2 : SameBC b c) : SameBC a c := by
+  obtain ⟨c1, rfl⟩ := h1
+  obtain ⟨c2, rfl⟩ := h2
+  exact ⟨c2, rfl⟩
+theorem SameBC.demeStep {d d' : Deme} (h : SameBC d d') : DemeStep d d' := by
+  obtain ⟨cs, rfl⟩ := h
+  exact ⟨rfl, rfl, rfl, rfl, rfl, fun h => h, fun _ => ⟨rfl, rfl⟩, ⟨[], by simp⟩, Nat.le_refl _⟩
+
+theorem forall2_sameBC_refl (ds : List Deme) : List.Forall₂ SameBC ds ds := by
+  induction ds with
+  | nil => exact .nil
+  | cons d ds ih => exact .cons (SameBC.refl d) ih
+
+theorem forall2_sameBC_trans {as bs cs : List Deme} (h1 : List.Forall₂ SameBC as bs)
+    (h2 : List.Forall₂ SameBC bs cs) : List.Forall₂ SameBC as cs := by
+  induction h1 generalizing cs with
+  | nil => cases h2; exact .nil
+  | cons hab _ ih =>
+    cases h2 with
+    | cons hbc htl => exact .cons (hab.trans hbc) (ih htl)
+
+theorem forall2_sameBC_demeStep {as bs : List Deme} (h : List.Forall₂ SameBC as bs) :
+    List.Forall₂ DemeStep as bs := by
+  induction h with
+  | nil => exact .nil
+  | cons hab _ ih => exact .cons hab.demeStep ih
+
+theorem forall2_sameBC_append_left {as bs cs : List Deme} (h : List.Forall₂ SameBC (as ++ bs) cs) :
+    ∃ c1 c2, cs = c1 ++ c2 ∧ List.Forall₂ SameBC as c1 ∧ List.Forall₂ SameBC bs c2 := by
+  induction as generalizing cs with
+  | nil => exact ⟨[], cs, by simp, .nil, by simpa using h⟩
+  | cons a as ih =>
+    cases h with
+    | cons hab htl =>
+      obtain ⟨c1, c2, rfl, h1, h2⟩ := ih htl
+      exact ⟨_ :: c1, c2, by simp, .cons hab h1, h2⟩
+
 /-- what `createDeme` does -/
 structure CreateEffect (t t' : T) (parent : Option Deme) (seed : Option Ind) : Prop where
   cfg : t'.cfg = t.cfg
@@ -252,7 +293,7 @@ structure CreateEffect (t t' : T) (parent : Option Deme) (seed : Option Ind) : P
   pc : t'.pc = t.pc
   gscSeen : t'.gscSeen = t.gscSeen
   refusedMono : t.refused = true → t'.refused = true
-  demes : ∃ old d, t'.demes = old ++ [d] ∧ List.Forall₂ DemeStep t.demes old ∧
+  demes : ∃ old d, t'.demes = old ++ [d] ∧ List.Forall₂ SameBC t.demes old ∧
     d.level = (match parent with | some p => p.level + 1 | none => 0) ∧
     d.id = (match parent with | some p => nextChildId t p | none => []) ∧
     d.active = true ∧ d.hib = false ∧ d.startedAt = t.metaepoch ∧ d.seed = seed ∧
@@ -264,10 +305,14 @@ structure CreateEffect (t t' : T) (parent : Option Deme) (seed : Option Ind) : P
         ∃ lc, t.cfg.levels[d.level]? = some lc ∧ lc.engine = .localOpt ∧ invs.length = 0)
 
 theorem addChild_forall2 (pid cid : Id) (ds : List Deme) :
-    List.Forall₂ DemeStep ds (updFirst pid (fun x => { x with children := x.children ++ [cid] }) ds) := by
-  apply updFirst_forall2
-  intro d _
-  exact ⟨rfl, rfl, rfl, rfl, rfl, fun h => h, fun _ => ⟨rfl, rfl⟩, ⟨[], by simp⟩, Nat.le_refl _⟩
+    List.Forall₂ SameBC ds (updFirst pid (fun x => { x with children := x.children ++ [cid] }) ds) := by
+  induction ds with
+  | nil => exact .nil
+  | cons d ds ih =>
+    simp only [updFirst]
+    split
+    · exact .cons ⟨_, rfl⟩ (forall2_sameBC_refl ds)
+    · exact .cons (SameBC.refl d) ih
 
 theorem createDeme_effect {t t' : T} {parent : Option Deme} {seed : Option Ind} {env : NewEnv}
     (h : createDeme t parent seed env = .ok t') : CreateEffect t t' parent seed := by
@@ -290,7 +335,7 @@ theorem createDeme_effect {t t' : T} {parent : Option Deme} {seed : Option Ind} 
           have := e.demes; simpa [updFirst_bump_zero] using this
         refine ⟨_, _, rfl, ?_, rfl, rfl, rfl, rfl, rfl, rfl, rfl, ⟨lc, hlc⟩, invs, hlog, ?_, ?_, ?_⟩
         · cases parent with
-          | none => simp only [hd1]; exact forall2_refl _
+          | none => simp only [hd1]; exact forall2_sameBC_refl _
           | some p => simp only [hd1]; exact addChild_forall2 _ _ _
         · by_cases hl : lc.engine = .localOpt
           · -- a local deme may issue requests in the model only if `initPopOk` accepted: it requires none
